@@ -203,3 +203,25 @@ clean-up — the batch is still recovered, from its second record -/
 example :
     let d := D2.run {} [.walAppend, .rotate, .applyAck, .flushOldest, .cleanupWal]
     d.acked = [0] ∧ d.recover = [0] ∧ d.segs = [(1, [0])] := by decide
+
+
+/-- **C07 (opening repeatedly yields the same contents).** A reopen — also one that is itself cut short by a
+crash after it flushed the first `k` replayed records of the last segment — changes nothing in what the next
+recovery rebuilds: nothing is lost and nothing is added. -/
+theorem C07_reopen_same_contents (ops : List DOp) (k : Nat) (b : Nat) :
+    b ∈ ((D2.run {} ops).reopen false k).recover ↔ b ∈ (D2.run {} ops).recover :=
+  ⟨reopen_adds_nothing _ k b, reopen_keeps _ (inv2_run ops {} inv2_init) k b⟩
+
+
+/-- **C07 (new commits are ordered after everything recovered).** For every run — rotations wherever they
+fall — everything recovery rebuilds lies below the next batch number, so a commit made after reopening is
+never shadowed by recovered data. -/
+theorem C07_recovered_below_next (ops : List DOp) (b : Nat) (hb : b ∈ (D2.run {} ops).recover) :
+    b < (D2.run {} ops).next := by
+  have hinv := inv2_run ops {} inv2_init
+  unfold D2.recover at hb
+  rcases List.mem_append.mp hb with hb | hb
+  · exact hinv.written.2.1 b hb
+  · simp only [List.mem_flatMap, List.mem_filter] at hb
+    obtain ⟨s, ⟨hs, _⟩, hbs⟩ := hb
+    exact hinv.written.1 s hs b hbs
